@@ -621,7 +621,7 @@ def run(index: RepoIndex, rep) -> None:
              'call, OuterEnv.step returns the inner answer (C04.R1, C04.R5)', floor=8)
     from .c04 import outer_delegation, state_machine
     state_machine(index, rep, 'C12.R8')
-    outer_delegation(index, rep, 'C12.R8')
+    outer_delegation(index, rep, 'C12.R8', strict=False)
     rep.rule('C12.R5', 'GridWorld.functional_step wires reward and termination on the '
              '(state, action, next_state) of one step', floor=3)
     rw = index.registry('reward', 13)
